@@ -691,6 +691,8 @@ def get_env():
 
 def drive(requests):
   path = framework.Driver('drv_c16').path
+  if not os.path.exists(path):      # driver not built (broken model/table): no trace validation
+    return None
   data = '\n'.join(json.dumps(r) for r in requests) + '\n'
   p = subprocess.run([path], input=data, capture_output=True, text=True, timeout=120)
   lines = [l for l in p.stdout.split('\n') if l.strip()]
